@@ -164,7 +164,30 @@ func (c *CEnv) lookupPureFn(name string) (*ssa.Function, *FuncContract, *PkgInfo
 	}
 	fc := c.pkg.Contracts.Funcs[name]
 	if fc == nil {
-		return nil, nil, nil
+		// a pure function of a directly imported package that is under contract there (the name must be
+		// unambiguous among the imports)
+		var fn *ssa.Function
+		var ffc *FuncContract
+		var fpi *PkgInfo
+		for _, imp := range c.pkg.Types.Imports() {
+			pi := c.x.vc.uni.pkgs[imp.Path()]
+			if pi == nil || pi.Contracts == nil || pi.SSA == nil {
+				continue
+			}
+			ic := pi.Contracts.Funcs[name]
+			if ic == nil || ic.Recv != "" {
+				continue
+			}
+			f := pi.SSA.Func(name)
+			if f == nil || !pureScalarFn(f, ic) {
+				continue
+			}
+			if fn != nil {
+				return nil, nil, nil
+			}
+			fn, ffc, fpi = f, ic, pi
+		}
+		return fn, ffc, fpi
 	}
 	fn := c.pkg.SSA.Func(name)
 	if fn == nil || !pureScalarFn(fn, fc) {
